@@ -154,6 +154,10 @@ class Prov:
         if isinstance(e, ast.IfExp):
             return self.origin(e.body, fc, depth + 1, ch) | self.origin(e.orelse, fc, depth + 1, ch)
         if isinstance(e, ast.Subscript):
+            if isinstance(e.value, ast.Call) and (dotted(e.value.func) or "").split(".")[-1] == "quoteattr":
+                # quoteattr() picks its delimiter from the content and only escapes the other quote: a slice of its result (the
+                # delimiters stripped) is escaped for text, not for an attribute value
+                return {("SAN_TEXT", ch)}
             return self.origin(e.value, fc, depth + 1, ch)
         if isinstance(e, (ast.Tuple, ast.List)):
             out = set()
